@@ -459,3 +459,16 @@ def _load_final_wording():
 
 
 _load_final_wording()
+
+
+# Properties whose check also carries a source-translation tie (TRANSLATOR.md): the technique says so.
+def _mark_translated():
+    import os as _os
+    root = _os.path.dirname(_os.path.dirname(_os.path.dirname(_os.path.abspath(__file__))))
+    for _pid in sorted(CLAIMS):
+        if _os.path.exists(_os.path.join(root, "lean", "Verif", "Generated", "Trans%s.lean" % _pid)):
+            CLAIMS[_pid]["technique"] += (" + Lean definitions regenerated from the Python source text of selected functions "
+                                          "on every run (py2lean) and proved equal to the model functions")
+
+
+_mark_translated()
